@@ -352,6 +352,14 @@ func fieldOf(l, name string) string {
 	return s
 }
 
+// length of the file name of the k-th concurrent request: the audit record is this plus 600-900 bytes, so the classes put
+// it well below, around and above 4096 / 8192 / 65536 bytes
+func concNameLen(k int) int {
+	classes := []int{200, 900, 2500, 3100, 3300, 3500, 3700, 3900, 4100, 4300, 5000, 7300, 7500, 7700, 7900, 8100, 8300, 12000, 20000, 33000,
+		64600, 64800, 65000, 65200, 65400, 65600, 70000}
+	return classes[k%len(classes)] + (k*7)%60
+}
+
 func runConcurrent(dir string, id int, sinks string, workers, per int) *scenario {
 	sc := &scenario{ID: id, Kind: "concurrent", Sinks: sinks, AmqpConf: sinks == "both", FileConf: true, Concurrent: workers * per, LeafSHA1: leafSHA1()}
 	behaviour := ""
@@ -379,7 +387,7 @@ func runConcurrent(dir string, id int, sinks string, workers, per int) *scenario
 		go func() {
 			defer wg.Done()
 			for i := 0; i < per; i++ {
-				fn := fmt.Sprintf("w%02d-%03d-%s.txt", w, i, strings.Repeat("x", 200+(w*37+i*101)%3000))
+				fn := fmt.Sprintf("w%02d-%03d-%s.txt", w, i, strings.Repeat("x", concNameLen(w*per+i)))
 				key := []string{"rsa2048", "second", "rsa-alias"}[(w+i)%3]
 				check := (w*per+i)%8 == 0 // for a sample: is the record in the file when the response starts?
 				inFile := true
@@ -516,9 +524,23 @@ func init() {
 		os.MkdirAll(c.Scratch, 0o755)
 		ps1, _ = os.ReadFile("/repo/functest/packages/hello.ps1")
 		deb, _ = os.ReadFile("/repo/functest/packages/zlib1g_1.2.8.dfsg-5_i386.deb")
+		if len(c.Args) > 0 && c.Args[0] == "append-worker" {
+			// an appender process: stdin = appSpec; one JSON line per AppendTo call
+			var sp appSpec
+			if err := json.NewDecoder(os.Stdin).Decode(&sp); err != nil {
+				return err
+			}
+			return appendWorker(sp, func(r appRec) { c.Emit(r) })
+		}
+		self, _ := os.Executable()
 		if len(c.Args) > 0 && c.Args[0] == "replay" {
 			// stdin: {"kind","sinks","file_fault","broker","reqs":[reqSpec...]} ; args[1] = relic binary (standalone)
 			var in struct {
+				Mode      string    `json:"mode"`
+				Procs     int       `json:"procs"`
+				Sizes     [][]int   `json:"sizes"`
+				FailK     int       `json:"fail_k"`
+				DelayUs   int       `json:"delay_us"`
 				Kind      string    `json:"kind"`
 				Sinks     string    `json:"sinks"`
 				FileFault string    `json:"file_fault"`
@@ -530,6 +552,8 @@ func init() {
 			}
 			dir := filepath.Join(c.Scratch, "replay")
 			switch in.Kind {
+			case "appenders":
+				c.Emit(runAppenders(self, dir, 0, in.Mode, in.Procs, in.Sizes, in.FailK, in.DelayUs))
 			case "standalone":
 				if len(c.Args) < 2 {
 					return fmt.Errorf("replay of a standalone case needs the relic binary")
@@ -572,6 +596,31 @@ func init() {
 			c.Emit(runConcurrent(filepath.Join(c.Scratch, "conc-"+sinks), id, sinks, workers, per))
 			id++
 		}
+		// the audit file at the level of system calls: AppendTo itself, record lengths around every buffer boundary
+		thorough := c.Tier == "thorough"
+		app := func(mode string, procs int, sizes [][]int, failK, delayUs int) {
+			c.Emit(runAppenders(self, filepath.Join(c.Scratch, fmt.Sprintf("app%d", id)), id, mode, procs, sizes, failK, delayUs))
+			id++
+		}
+		app("strace-seq", 1, [][]int{sizeClasses(thorough)}, 0, 0)
+		for _, j := range []int{900, 4096, 70000} {
+			for k := 1; k <= 2; k++ {
+				app("strace-fault", 1, [][]int{{j}}, k, 0)
+			}
+		}
+		// a write(2) that takes only part of the line: file size limit reached in the middle of the third record, lifted afterwards
+		app("fsize", 1, [][]int{{900, 900, 5000, 900}}, 901+901+2500, 0)
+		rounds, gor, per := 2, 16, 10
+		if thorough {
+			rounds, gor, per = 6, 32, 20
+		}
+		for r := 0; r < rounds; r++ {
+			app("goroutines", 1, mixedSizes(gor, per, c.Seed+uint64(r), false), 0, 0)
+			app("processes", 4, mixedSizes(4, per, c.Seed+100+uint64(r), false), 0, 0)
+		}
+		app("strace-delay", 3, mixedSizes(3, 6, c.Seed+200, false), 0, 1500)
+		app("strace-delay", 1, mixedSizes(8, 3, c.Seed+300, true), 0, 1500)
+		app("strace-delay", 2, mixedSizes(4, 3, c.Seed+400, true), 0, 1500)
 		// standalone `relic sign` (binary built by the check)
 		if len(c.Args) > 0 {
 			relic := c.Args[0]
